@@ -637,6 +637,68 @@ int main(int argc, char** argv) {
     ctx.count("ix.all.returned_nearly_tangent_not_matched", all_illconditioned_returned);
   }
 
+  // ================================================================ Closest at the ties between neighbouring intersections
+  // Closest must pick the L1-nearest intersection.  Which of two intersections is nearer flips across their L1 bisector;
+  // the tiling constants of ClosestInt (_d1, _t1, _t2) decide whether the nearer one is found at all, and a wrong constant
+  // only shows for offsets p0 near such a tie, on very eccentric ellipsoids.  So: both lines start at one point ([0,0] is
+  // an intersection by construction), the reference set is the root scan over the diamond |x|+|y| <= 8e7, and p0 runs over
+  // a FINE lattice (step t/512, t = 2.2e7 m) restricted to the tie neighbourhoods computed from the reference set itself
+  // (the two nearest reference intersections differ by < 1 % in L1 distance) plus a coarse sub-lattice (step t/32).
+  ctx.sub("ix-closest-ties");
+  {
+    const std::vector<Ell> te = {{"f=+1/5 exact", aW, 0.2, true, 40e-9}, {"f=-1/4 exact", aW, -0.25, true, 40e-9}, {"f=+1/10 exact", aW, 0.1, true, 40e-9}};
+    std::vector<PDef> starts = {{"(-12,0)", -12, 0}, {"(35,60)", 35, 60}};
+    std::vector<double> axs = {98, 53, 8}, ays = {-107, -62, -17};
+    if (T) { starts.push_back({"(-50,-120)", -50, -120}); starts.push_back({"(0.5,10)", 0.5, 10}); axs.push_back(143); ays.push_back(28); }
+    const double tt = 2.2e7, fine = tt / 512, band = 0.01;
+    const int NF = 614;                                   // fine lattice indices |i|+|j| <= NF: L1 ball of radius 1.2 t
+    ctx.bound("ix-closest-ties", std::string("ellipsoids f=1/5, -1/4, 1/10 (exact) x starts ") + (T ? "(-12,0), (35,60), (-50,-120), (0.5,10) x aziX {98,53,8,143} x aziY {-107,-62,-17,28}" : "(-12,0), (35,60) x aziX {98,53,8} x aziY {-107,-62,-17}") + " (both lines through the start); "
+              "p0 = (i,j) t/512, t = 2.2e7 m, |i|+|j| <= 614 (L1 ball 1.2 t): every lattice point whose two nearest reference intersections differ by < 1 % in L1 distance, "
+              "plus the sub-lattice i,j = 0 mod 16; predicate: Closest(p0) is a true intersection and not farther (L1) than the nearest reference intersection");
+    ScanStat st; uint64_t calls = 0, tiepts = 0, coarsepts = 0;
+    for (const Ell& E : te) for (const PDef& s0 : starts) for (double ax : axs) for (double ay : ays) {
+      if (!ctx.take()) continue;
+      const double sc = E.a / aW;
+      Geodesic g(E.a, E.f, E.exact);
+      Intersect* inp = make_intersect(ctx, E, g, std::string(E.name) + " ties " + s0.name);
+      if (!inp) continue;
+      Judge J{ctx, E, g, sc, 20e-9 * sc * (E.gdoc / 15e-9)};
+      J.F = {{"kind", ""}, {"ellipsoid", E.name}, {"relation", "distinct"}};
+      const GeodesicLine lx = g.Line(s0.lat, s0.lon, ax, Intersect::LineCaps), ly = g.Line(s0.lat, s0.lon, ay, Intersect::LineCaps);
+      const GeodesicLine ix = g.Line(s0.lat, s0.lon, ax), iy = g.Line(s0.lat, s0.lon, ay);
+      LineCache cx, cy; cx.build(E, ix, 2.5e5 * sc, 330); cy.build(E, iy, 2.5e5 * sc, 330);
+      std::vector<Root> roots = scan_roots(E, cx, cy, 0, 0, 8e7 * sc, 4 * J.restol(1e8 * sc, 0), st);
+      { bool have0 = false; for (auto& r : roots) if (l1(r.x, r.y, 0, 0) <= 1.0) have0 = true;
+        if (!have0) { D3 P, tX, tY; evalline(E, ix, 0, P, tX); evalline(E, iy, 0, P, tY); double c = dot(tX, tY); roots.push_back({0, 0, std::sqrt(std::max(0.0, 1 - c * c)), 0}); } }
+      const std::string base = std::string(E.name) + " start=" + s0.name + " aziX=" + fmt(ax) + " aziY=" + fmt(ay);
+      for (int i = -NF; i <= NF; ++i) for (int j = -(NF - std::abs(i)); j <= NF - std::abs(i); ++j) {
+        const double p0x = i * fine * sc, p0y = j * fine * sc;
+        // the two nearest reference intersections
+        ld d1 = 1e30L, d2 = 1e30L; const Root* r1 = nullptr;
+        for (auto& r : roots) { ld d = l1(r.x, r.y, p0x, p0y); if (d < d1) { d2 = d1; d1 = d; r1 = &r; } else if (d < d2) d2 = d; }
+        const bool tie = d2 - d1 < band * d1, coarse = (i % 16 == 0 && j % 16 == 0);
+        if (!tie && !coarse) continue;
+        Ctx::Case cs(ctx); ++calls; if (tie) ++tiepts; else ++coarsepts;
+        J.where = "closest-ties " + base + " p0=(" + fmt(p0x) + "," + fmt(p0y) + ")";
+        int c1 = -9;
+        Intersect::Point p = inp->Closest(lx, ly, Intersect::Point(p0x, p0y), &c1);
+        ctx.sig(500 + tie);
+        double sinth;
+        if (!J.check_point("closest", ix, iy, p.first, p.second, sinth)) continue;
+        if (c1 != 0) J.failk("coincidence-indicator", "c = " + fmti(c1) + " for two distinct lines");
+        const double dlib = std::fabs(p.first - p0x) + std::fabs(p.second - p0y);
+        const double margin = 1e-3 + J.postol(sinth, p.first, p.second) + J.postol(*r1);
+        if (!(dlib <= (double)d1 + margin))
+          J.failk("closest-not-minimal", "returned (" + fx(p.first) + "," + fx(p.second) + ") at L1 distance " + fx(dlib) + " but (" + fmt((double)r1->x) + "," + fmt((double)r1->y) +
+                  ") is an intersection at distance " + fmt((double)d1) + " (" + fmt(dlib - (double)d1) + " m closer)");
+      }
+      delete inp;
+    }
+    ctx.count("calls", calls); ctx.count("ix-closest-ties.tie_neighbourhood_offsets", tiepts); ctx.count("ix-closest-ties.coarse_offsets", coarsepts);
+    ctx.count("ix.scan.cells", st.cells); ctx.count("ix.scan.candidate_cells", st.candidates); ctx.count("ix.scan.roots", st.roots);
+    ctx.count("ix.scan.newton_parallel", st.parallel); ctx.count("ix.scan.newton_wandered", st.wandered); ctx.count("ix.scan.newton_unconverged", st.unconverged);
+  }
+
   // ================================================================ Next
   ctx.sub("ix-next");
   {
